@@ -52,6 +52,7 @@ def run(ctx: Ctx) -> None:
     lookahead(ctx, py)
     consumers(ctx, py)
     cached_decoder(ctx, py)
+    address_independence(ctx, py)
     history(ctx, py)
 
 
@@ -249,6 +250,45 @@ def history(ctx: Ctx, py: PyProgram) -> None:
         for ln, what in memo_findings(py.module(rel), fn, inputs, memdep):
             ctx.violation("C01.2/memo", key_of(rel, q, "result remembered across calls"), what + " - decoding must not depend on what was decoded before", f"{rel}:{ln}")
     ctx.instance("C01.2/memo", "decode consumers free of memos keyed by less than their inputs", n, 8)
+
+
+def address_independence(ctx: Ctx, py: PyProgram) -> None:
+    """Whether bytes are accepted, and with what length, may not depend on the address they are decoded at: no method of the ISA
+    layer that receives `addr` (lift / analyze / render / encode helpers) tests a value derived from it in an assert, an `if` or a
+    loop condition.  (`x is None` tests are not value tests.)  The sweep runs at two concrete addresses; this rule covers the rest."""
+    n = 0
+    for rel in (isa.INSTR_PY, isa.OPCODES_PY):
+        mod = py.module(rel)
+        for fn in [x for x in ast.walk(mod.tree) if isinstance(x, (ast.FunctionDef, ast.AsyncFunctionDef))]:
+            if "addr" not in [a.arg for a in fn.args.args]:
+                continue
+            n += 1
+            tainted = {"addr"}
+            changed = True
+            while changed:
+                changed = False
+                for a in ast.walk(fn):
+                    if isinstance(a, (ast.Assign, ast.AnnAssign, ast.AugAssign)) and a.value is not None and any(isinstance(x, ast.Name) and x.id in tainted for x in ast.walk(a.value)):
+                        ts = a.targets if isinstance(a, ast.Assign) else [a.target]
+                        for t in ts:
+                            if isinstance(t, ast.Name) and t.id not in tainted:
+                                tainted.add(t.id)
+                                changed = True
+            for nd in ast.walk(fn):
+                test = nd.test if isinstance(nd, (ast.If, ast.While, ast.Assert, ast.IfExp)) else None
+                if test is None:
+                    continue
+                for cmp_ in [test] + [x for x in ast.walk(test) if isinstance(x, (ast.Compare, ast.BoolOp, ast.UnaryOp))]:
+                    pass
+                uses = [x for x in ast.walk(test) if isinstance(x, ast.Name) and x.id in tainted]
+                if not uses:
+                    continue
+                none_only = all(isinstance(c, ast.Compare) and all(isinstance(o, (ast.Is, ast.IsNot)) for o in c.ops) for c in ast.walk(test) if isinstance(c, ast.Compare)) and any(isinstance(c, ast.Compare) for c in ast.walk(test))
+                if none_only:
+                    continue
+                ctx.violation("C01.5/address-independence", key_of(rel, fn.name, "test on a value derived from the address"),
+                              f"{fn.name} tests `{unparse(test)[:80]}`, which depends on the address the instruction is decoded at: the same bytes are accepted at one address and rejected (or treated differently) at another, and only by the consumers that call this method", f"{rel}:{nd.lineno}")
+    ctx.instance("C01.5/address-independence", "ISA-layer methods receiving `addr`: no assert/if/loop condition on a value derived from it", n, 40)
 
 
 def cached_decoder(ctx: Ctx, py: PyProgram) -> None:
